@@ -14,7 +14,7 @@ META = dict(
                '(x\'/a)^2+(y\'/b)^2 and reports > 1 for an ellipse without area.',
     level_note='Trusted: translator, shims, CBMC; the winding-number theorem (non-zero exactly inside a simple polygon) and that the '
                'floating-point orientation test has the sign of the exact one are mathematics outside the proof; Point<2> operators are separate units.',
-    scope='Utilities::polygon_contains_point (alias wrapper), Utilities::interpolate_angle_across_zero (plume rotation angle), Utilities::fraction_from_ellipse_center (plume ellipse test), Plume::properties (cross-section interpolation, half-ellipsoid tip, writes iff covers), Point<2> operator-/dot/norm_square; extent guard of ContinentalPlate::properties (OceanicPlate/MantleLayer: same contract, run under C02)',
+    scope='Utilities::polygon_contains_point (alias wrapper), Utilities::interpolate_angle_across_zero (plume rotation angle), Utilities::fraction_from_ellipse_center (plume ellipse test), Plume::properties (cross-section interpolation, half-ellipsoid tip, writes iff covers), Point<2> operator-/dot/norm_square; extent guard of ContinentalPlate/OceanicPlate/MantleLayer::properties (the C02 contract, run here as well)',
     not_covered=['the winding-number kernel polygon_contains_point_implementation itself (contract and ghost definition are written - unit polygon_impl - but the proof does not finish in the time budget; it is not counted)', 'the semi-major axis used for the ellipse test above the shallowest cross section (half-ellipsoid taper inside the tip branch of Plume::properties)', 'sign-exactness of the floating-point orientation predicate'],
     enforced_elsewhere={'Point2_op_sub': 'C04/point2_sub', 'Point2_dot': 'C04/point2_dot', 'Point2_norm_square': 'C04/point2_norm_square',
                         'Utilities_polygon_contains_point_implementation': 'C04/polygon_impl'},
@@ -77,7 +77,7 @@ import importlib.util as _ilu
 _spec = _ilu.spec_from_file_location('c02', os.path.join(os.path.dirname(os.path.abspath(__file__)), 'C02.py'))
 _c02 = _ilu.module_from_spec(_spec)
 _spec.loader.exec_module(_c02)
-UNITS = [u for u in UNITS_ALL if not u.get('experimental')] + [u for u in _c02.UNITS if u['name'] in ('continental_plate_properties', 'plume_properties')]
+UNITS = [u for u in UNITS_ALL if not u.get('experimental')] + [u for u in _c02.UNITS if u['name'] in ('continental_plate_properties', 'oceanic_plate_properties', 'mantle_layer_properties', 'plume_properties')]
 
 
 # ----------------------------------------------------------------------------- native replay oracle
@@ -144,6 +144,25 @@ def native_oracle(witness, work, search_seed=None):
                                                           % (angs, ecc, d, x, y, 'inside' if val < 1 else 'outside', math.degrees(th) % 360, val, 'inside' if inside else 'outside'))
         finally:
             q.close()
+    # area features whose min (max) depth is a surface while the other bound is a constant: membership follows the LOCAL depth range
+    for fam in ('continental plate', 'oceanic plate', 'mantle layer'):
+        for rng, inside, outside in (({"min depth": [[10e3], [100e3, [[500e3, 500e3]]]], "max depth": 200e3}, [150e3], [50e3, 99e3]),
+                                     ({"min depth": 10e3, "max depth": [[200e3], [60e3, [[500e3, 500e3]]]]}, [30e3], [61e3, 150e3])):
+            text = json.dumps({"version": "1.1", "coordinate system": {"model": "cartesian"}, "features": [
+                dict({"model": fam, "name": "A", "coordinates": [[0, 0], [1000e3, 0], [1000e3, 1000e3], [0, 1000e3]],
+                      "composition models": [{"model": "uniform", "compositions": [0]}]}, **rng)]})
+            q = oracle.Q(text, work, name='localrange')
+            try:
+                if q.construct_error:
+                    continue
+                for d, exp in [(x, True) for x in inside] + [(x, False) for x in outside]:
+                    st, v = q.ask('c3 500e3 500e3 %r %r 0' % (1000e3 - d, d))
+                    if st == 'OK' and (float.fromhex(v[0]) > 0.5) != exp:
+                        return dict(status='violated', input=dict(feature=fam, depth_range=rng, point=[500e3, 500e3, d]),
+                                    detail='%s with %s: at the listed point (500 km, 500 km), depth %g km, the point should be %s the feature (local depth range) but the library says %s'
+                                           % (fam, json.dumps(rng), d / 1e3, 'inside' if exp else 'outside', 'inside' if not exp else 'outside'))
+            finally:
+                q.close()
     # area feature: closed polygon and closed depth interval
     text = json.dumps({"version": "1.1", "coordinate system": {"model": "cartesian"}, "features": [
         {"model": "continental plate", "name": "A", "min depth": 10e3, "max depth": 50e3, "coordinates": [[0, 0], [100e3, 0], [100e3, 100e3], [50e3, 150e3], [0, 100e3]],
